@@ -127,7 +127,7 @@ func TestVerifC13Schedules(t *testing.T) {
 		return
 	}
 	defer env.stop()
-	n := kit.Scale(50000, 400000)
+	n := kit.Scale(30000, 300000)
 	root := kit.NewRNG(kit.Mix(kit.Seed(), 0xC13))
 	seeds := make([]uint64, n)
 	for i := range seeds {
